@@ -3,6 +3,9 @@
 set -u
 ID=$1; shift
 git -C /repo apply /verif/seeded/$ID/patch.diff || { echo "patch does not apply"; exit 2; }
+# evidence written while a seeded change is applied must never replace the evidence of the unchanged tree
+rm -rf /verif/.work/evidence.keep; mkdir -p /verif/.work; cp -r /verif/evidence /verif/.work/evidence.keep
 (cd /verif && ./check "$@" 2>&1 | grep -v "^KNOWN-FINDING" | tail -5)
 git -C /repo checkout -- .
+rm -rf /verif/evidence; mv /verif/.work/evidence.keep /verif/evidence
 git -C /repo status --short | head -3
